@@ -251,6 +251,47 @@ def run(tier):
             nv += 1
             if nv <= 8:
                 ctx.violation({"layer": "prog", "cases": [c], "implementation_answer": o[:600], "why": why})
+    # the model's PortfolioRunner (Engine/Failure.v portfolio_run, theorems C12_portfolio_*) on the members' outcomes: without
+    # early stop the outcome of the portfolio is determined by them (payload of the failing member joined last)
+    CLS = {"ok": 0, "vpanic": 1, "deadlock": 2, "max_steps": 3}
+    pm, pmi = [], []
+    for c, o in zip(pcases, po):
+        m = re.match(r"P=(\S+) M=(\S+)$", o)
+        if m and c.split(" ")[1] == "0":
+            pm.append("portfolio 0 " + ",".join(str(CLS.get(x, 9)) for x in m.group(2).split(",")))
+            pmi.append((c, o, CLS.get(m.group(1), 9)))
+    pmo = ctx.run_model("history", pm)
+    for (c, o, got), mc, mo_ in zip(pmi, pm, pmo):
+        if mo_ != "P=%d" % got:
+            nv += 1
+            ctx.violation({"layer": "history", "cases": [c, mc], "implementation_answer": o[:600], "model_answer": mo_,
+                           "why": "the model of PortfolioRunner::run (Engine/Failure.v) and the crate disagree on the outcome of a portfolio without early stop"})
+    pstat["compared_with_model"] = len(pm)
+    # the model's shutdown settings (ug_run / panic_result, theorems C12_shutdown_settings_are_own, C12_default_run_reraises_own):
+    # for every panicking run of the histories, what the model says about the payload after the same earlier runs
+    sm, smi = [], []
+    for h, res in zip(hists, results):
+        earlier, tid = [], 0
+        for r, o in zip(h, res):
+            t = 0
+            if r["thread"] == "new":
+                tid += 1
+                t = tid
+            ug = r.get("ug", "")
+            if not o.get("abort") and o["term"].startswith("panic"):
+                sw = 1 if re.search(r"(lk|rd|wr)\d+;[^|]*pn", r["bodies"]) else 0
+                sm.append("shutdown %s %d %d %d %d" % (";".join(earlier) or "-", t, int("+e" in ug), int("+d" in ug), sw))
+                smi.append((h, r, o))
+            earlier.append("%d.%d.%d" % (t, int("+e" in ug), int("+d" in ug)))
+    smo = ctx.run_model("history", sm)
+    for (h, r, o), mc, mo_ in zip(smi, sm, smo):
+        own = o["payload"] == "vpanic"
+        if ("pay=own" in mo_) != own:
+            nv += 1
+            if nv <= 8:
+                ctx.violation({"layer": "history", "history": h, "cases": [mc], "implementation_answer": o, "model_answer": mo_,
+                               "why": "the model says the run re-raises %s, the crate re-raised payload class %s" % ("the task's own payload" if "pay=own" in mo_ else "the early-return payload", o["payload"])})
+    pstat["panicking_runs_compared_with_shutdown_model"] = len(sm)
     stats.update(pstat)
     stats["failing_runs_replayed_with_random_data"] = nrep
     stats["of_which_failed_after_the_first_execution"] = nlate
